@@ -81,6 +81,38 @@ Section Walker.
           end
       end
     end.
+  (* more fuel never changes a result *)
+  Lemma walk_fuel_mono : forall f1 st ds s r, walk f1 st ds s = Ok r ->
+    forall f2, (f1 <= f2)%nat -> walk f2 st ds s = Ok r.
+  Proof.
+    induction f1 as [|f IH]; intros st ds s r H f2 LE; [discriminate|].
+    destruct f2 as [|g]; [inversion LE|]. assert (LE' : (f <= g)%nat) by (apply le_S_n; exact LE).
+    cbn [walk] in *.
+    destruct ds as [|d rest]; [exact H|].
+    destruct (dF d =? 0).
+    - destruct (mk_field st d) as [fld|e]; [|discriminate]. cbn [bind] in *.
+      destruct (elem fld s) as [[[s1 v] w1]|e]; [|discriminate]. cbn [bind] in *.
+      destruct (walk f (post st fld v) rest s1) as [[[st2 s2] w2]|e] eqn:E2; [|discriminate].
+      rewrite (IH _ _ _ _ E2 g LE'). exact H.
+    - destruct (dF d =? 1).
+      + destruct (dY d =? 0).
+        * destruct rest as [|c rest']; [discriminate|].
+          destruct (is_factor c); [|discriminate].
+          destruct (mk_field st c) as [fld|e]; [|discriminate]. cbn [bind] in *.
+          destruct (elem fld s) as [[[s1 v] w1]|e]; [|discriminate]. cbn [bind] in *.
+          destruct (length rest' <? Z.to_nat (dX d))%nat; [discriminate|].
+          destruct (walk f st _ s1) as [[[st2 s2] w2]|e] eqn:E2; [|discriminate].
+          rewrite (IH _ _ _ _ E2 g LE'). exact H.
+        * destruct (length rest <? Z.to_nat (dX d))%nat; [discriminate|].
+          exact (IH _ _ _ _ H g LE').
+      + destruct (dF d =? 2).
+        * destruct (op_field st d) as [fld|].
+          -- destruct (elem fld s) as [[[s1 v] w1]|e]; [|discriminate]. cbn [bind] in *.
+             destruct (walk f st rest s1) as [[[st2 s2] w2]|e] eqn:E2; [|discriminate].
+             rewrite (IH _ _ _ _ E2 g LE'). exact H.
+          -- destruct (resolve st d) as [st1|e]; [|discriminate]. cbn [bind] in *. exact (IH _ _ _ _ H g LE').
+        * destruct (lookupD d) as [seq|]; [|discriminate]. exact (IH _ _ _ _ H g LE').
+  Qed.
   End Inst.
 
   (* ---- lifting an element-level round trip to the whole walk ---- *)
@@ -146,4 +178,116 @@ Section Walker.
           -- destruct (lookupD d) as [seq|]; [|discriminate]. exact (IH _ _ _ _ _ _ H tail).
   Qed.
   End RoundTrip.
+
+  (* ---- the converse: whatever the walk decodes, the walk encodes to exactly the bits consumed ---- *)
+  Section Sound.
+  Variable enc_elem : field -> datum -> result (list bool).
+  Variable dec_elem : field -> list bool -> result (datum * list bool).
+  Hypothesis elem_sound : forall f l v tl, dec_elem f l = Ok (v, tl) -> exists b, enc_elem f v = Ok b /\ l = b ++ tl.
+
+  Lemma e_dec_inv f l s1 v w1 : e_dec dec_elem f l = Ok (s1, v, w1) ->
+    w1 = [v] /\ exists b, enc_elem f v = Ok b /\ l = b ++ s1.
+  Proof.
+    unfold e_dec. destruct (dec_elem f l) as [[v0 t0]|e] eqn:E; [|discriminate]. cbn [bind].
+    intro H. inversion H; subst. split; [reflexivity|]. exact (elem_sound _ _ _ _ E).
+  Qed.
+
+  Theorem walk_sound : forall fuel st ds l st' tl vs,
+    walk_dec dec_elem fuel st ds l = Ok (st', tl, vs) ->
+    forall rest, exists b, walk_enc enc_elem fuel st ds (vs ++ rest) = Ok (st', rest, b) /\ l = b ++ tl.
+  Proof.
+    induction fuel as [|f IH]; intros st ds l st' tl vs H rest; [discriminate|].
+    unfold walk_enc, walk_dec in *. cbn [walk] in *.
+    destruct ds as [|d rest0].
+    - inversion H; subst. exists []. split; reflexivity.
+    - destruct (dF d =? 0) eqn:F0.
+      + destruct (mk_field st d) as [fld|e]; [|discriminate]. cbn [bind] in *.
+        destruct (e_dec dec_elem fld l) as [[[s1 v] w1]|e] eqn:E1; [|discriminate]. cbn [bind] in H.
+        destruct (e_dec_inv _ _ _ _ _ E1) as (-> & b1 & B1 & ->).
+        destruct (walk _ _ _ _ _ f (post st fld v) rest0 s1) as [[[st2 s2] w2]|e] eqn:E2; [|discriminate].
+        cbn [bind] in H. inversion H; subst.
+        destruct (IH _ _ _ _ _ _ E2 rest) as (b2 & D & ->).
+        exists (b1 ++ b2). split; [|apply app_assoc].
+        cbn [app e_enc]. rewrite B1. cbn [bind]. rewrite D. reflexivity.
+      + destruct (dF d =? 1) eqn:F1.
+        * destruct (dY d =? 0) eqn:Y0.
+          -- destruct rest0 as [|c rest']; [discriminate|].
+             destruct (is_factor c); [|discriminate].
+             destruct (mk_field st c) as [fld|e]; [|discriminate]. cbn [bind] in *.
+             destruct (e_dec dec_elem fld l) as [[[s1 v] w1]|e] eqn:E1; [|discriminate]. cbn [bind] in H.
+             destruct (e_dec_inv _ _ _ _ _ E1) as (-> & b1 & B1 & ->).
+             destruct (length rest' <? Z.to_nat (dX d))%nat; [discriminate|].
+             destruct (walk _ _ _ _ _ f st _ s1) as [[[st2 s2] w2]|e] eqn:E2; [|discriminate].
+             cbn [bind] in H. inversion H; subst.
+             destruct (IH _ _ _ _ _ _ E2 rest) as (b2 & D & ->).
+             exists (b1 ++ b2). split; [|apply app_assoc].
+             cbn [app e_enc]. rewrite B1. cbn [bind]. rewrite D. reflexivity.
+          -- destruct (length rest0 <? Z.to_nat (dX d))%nat; [discriminate|].
+             exact (IH _ _ _ _ _ _ H rest).
+        * destruct (dF d =? 2).
+          -- destruct (op_field st d) as [fld|].
+             ++ destruct (e_dec dec_elem fld l) as [[[s1 v] w1]|e] eqn:E1; [|discriminate]. cbn [bind] in H.
+                destruct (e_dec_inv _ _ _ _ _ E1) as (-> & b1 & B1 & ->).
+                destruct (walk _ _ _ _ _ f st rest0 s1) as [[[st2 s2] w2]|e] eqn:E2; [|discriminate].
+                cbn [bind] in H. inversion H; subst.
+                destruct (IH _ _ _ _ _ _ E2 rest) as (b2 & D & ->).
+                exists (b1 ++ b2). split; [|apply app_assoc].
+                cbn [app e_enc]. rewrite B1. cbn [bind]. rewrite D. reflexivity.
+             ++ destruct (resolve st d) as [st1|e]; [|discriminate]. cbn [bind] in *. exact (IH _ _ _ _ _ _ H rest).
+          -- destruct (lookupD d) as [seq|]; [|discriminate]. exact (IH _ _ _ _ _ _ H rest).
+  Qed.
+  End Sound.
+
+  (* ---- the encoder emits exactly the fields the field-listing walk enumerates, in order ---- *)
+  Section Layout.
+  Variable enc_elem : field -> datum -> result (list bool).
+  Definition l_elem (f:field) (s:list datum) : result (list datum * datum * list (field * datum)) :=
+    match s with [] => Err TypeErr | v :: vs => Ok (vs, v, [(f, v)]) end.
+  Definition walk_fields := walk (list datum) (list (field * datum)) [] (@app _) l_elem.
+  Variable cat : list (field * datum) -> result (list bool).
+  Hypothesis cat_nil : cat [] = Ok [].
+  Hypothesis cat_cons : forall f v fl b1 b2, enc_elem f v = Ok b1 -> cat fl = Ok b2 -> cat ((f, v) :: fl) = Ok (b1 ++ b2).
+
+  Theorem walk_enc_fields : forall fuel st ds s st' lft b,
+    walk_enc enc_elem fuel st ds s = Ok (st', lft, b) ->
+    exists fl, walk_fields fuel st ds s = Ok (st', lft, fl) /\ cat fl = Ok b /\ s = map snd fl ++ lft.
+  Proof.
+    induction fuel as [|f IH]; intros st ds s st' lft b H; [discriminate|].
+    unfold walk_enc, walk_fields in *. cbn [walk] in *.
+    destruct ds as [|d rest0].
+    - inversion H; subst. exists []. repeat split. exact cat_nil.
+    - destruct (dF d =? 0) eqn:F0.
+      + destruct (mk_field st d) as [fld|e]; [|discriminate]. cbn [bind] in *.
+        destruct s as [|v vs1]; [discriminate|]. cbn [e_enc l_elem bind] in *.
+        destruct (enc_elem fld v) as [b1|e] eqn:E1; [|discriminate]. cbn [bind] in H.
+        destruct (walk _ _ _ _ _ f (post st fld v) rest0 vs1) as [[[st2 s2] w2]|e] eqn:E2; [|discriminate].
+        cbn [bind] in H. inversion H; subst.
+        destruct (IH _ _ _ _ _ _ E2) as (fl & D & C & ->).
+        exists ((fld, v) :: fl). rewrite D. cbn [bind app map snd]. repeat split. exact (cat_cons _ _ _ _ _ E1 C).
+      + destruct (dF d =? 1) eqn:F1.
+        * destruct (dY d =? 0) eqn:Y0.
+          -- destruct rest0 as [|c rest']; [discriminate|].
+             destruct (is_factor c); [|discriminate].
+             destruct (mk_field st c) as [fld|e]; [|discriminate]. cbn [bind] in *.
+             destruct s as [|v vs1]; [discriminate|]. cbn [e_enc l_elem bind] in *.
+             destruct (enc_elem fld v) as [b1|e] eqn:E1; [|discriminate]. cbn [bind] in H.
+             destruct (length rest' <? Z.to_nat (dX d))%nat; [discriminate|].
+             destruct (walk _ _ _ _ _ f st _ vs1) as [[[st2 s2] w2]|e] eqn:E2; [|discriminate].
+             cbn [bind] in H. inversion H; subst.
+             destruct (IH _ _ _ _ _ _ E2) as (fl & D & C & ->).
+             exists ((fld, v) :: fl). rewrite D. cbn [bind app map snd]. repeat split. exact (cat_cons _ _ _ _ _ E1 C).
+          -- destruct (length rest0 <? Z.to_nat (dX d))%nat; [discriminate|].
+             exact (IH _ _ _ _ _ _ H).
+        * destruct (dF d =? 2).
+          -- destruct (op_field st d) as [fld|].
+             ++ destruct s as [|v vs1]; [discriminate|]. cbn [e_enc l_elem bind] in *.
+                destruct (enc_elem fld v) as [b1|e] eqn:E1; [|discriminate]. cbn [bind] in H.
+                destruct (walk _ _ _ _ _ f st rest0 vs1) as [[[st2 s2] w2]|e] eqn:E2; [|discriminate].
+                cbn [bind] in H. inversion H; subst.
+                destruct (IH _ _ _ _ _ _ E2) as (fl & D & C & ->).
+                exists ((fld, v) :: fl). rewrite D. cbn [bind app map snd]. repeat split. exact (cat_cons _ _ _ _ _ E1 C).
+             ++ destruct (resolve st d) as [st1|e]; [|discriminate]. cbn [bind] in *. exact (IH _ _ _ _ _ _ H).
+          -- destruct (lookupD d) as [seq|]; [|discriminate]. exact (IH _ _ _ _ _ _ H).
+  Qed.
+  End Layout.
 End Walker.
